@@ -424,5 +424,7 @@ def check(ctx):
     sink_string_rules(ctx, prog)
     run_ex_rules(ctx, prog)
     run_rules(ctx, prog)
+    from . import c08
+    c08.expiry_contract(ctx, prog)     # "an expired deadline yields the timeout error" needs the deadline to be reported as expired
     from .. import cxxrules
     cxxrules.c16_mirror(ctx)
